@@ -74,7 +74,12 @@ def run(rep, tier, seed):
     rnd = random.Random(seed)
     rep.assumptions += ["coordinates are multiples of 1/4 user unit in a bounded grid (negative and fractional included)",
                         "the expat projection and the runner are trusted"]
-    recs = geom.run_geom_family(rep, "solve", tier, ["SolveIdentity"])
+    recs = geom.run_geom_family(rep, "solve", tier, ["SolveIdentity", "PartialIdentity"])
+    partial = [c for c in recs if c.get("partial")]
+    recs = [c for c in recs if not c.get("partial")]
+    if not partial:
+        raise vlib.ToolError("Geom.tla exported no partial (position-only) cases")
+    run_partial(rep, partial, rnd)
     nvar = 4 if tier == "quick" else 8
     outs = {}
     # the grid in quarters of a user unit (exact in binary), then in fifths (decimal fractions
@@ -100,6 +105,46 @@ def run(rep, tier, seed):
                          f"{nvar} spellings each, on a grid of quarters and of fifths; distinct = distinct attribute text")
     rep.notes["exhaustive"] = True
     rep.bounds["solve"] = {"cases": len(recs), "spellings_per_case": nvar}
+
+
+def run_partial(rep, recs, rnd):
+    """position-only shapes: every way of writing the delta must move what is given, identically"""
+    geom.UNIT = 0.25
+    cases = []
+    for j, c in enumerate(recs):
+        base = " ".join(f'{a}="{q(v)}"' for a, v in sorted(c["at"].items()))
+        dx, dy = q(c["dx"]), q(c["dy"])
+        sp = [f'dx="{dx}" dy="{dy}"', f'dy="{dy}" dx="{dx}"', f'dxy="{dx} {dy}"', f'dxy="{dx},{dy}"', f'dxy="{dx}, {dy}"']
+        if c["dy"] == 0:
+            sp.append(f'dx="{dx}"')
+        if c["dx"] == 0:
+            sp.append(f'dy="{dy}"')
+        if c["dx"] == c["dy"]:
+            sp.append(f'dxy="{dx}"')
+        for v, d in enumerate(sp):
+            a = rnd.choice([f"{base} {d}", f"{d} {base}"])
+            cases.append({"k": f"c11p-{j}-{v}", "xml": f'<svg><{c["shape"]} id="s" {a}/></svg>',
+                          "case": {k: c[k] for k in ("shape", "at", "dx", "dy", "exp")}, "key": f"p-{j}-{a}"})
+
+    def check(c, resp):
+        if resp["status"] != "ok":
+            return ("solve:partial-not-ok", f"transform failed: {resp.get('err')}")
+        el = geom.find_by_id(resp["out"], "s")
+        if el is None:
+            return ("solve:missing", "shape not in output")
+        bad = geom.residue(el)
+        if bad:
+            return ("solve:residue", f"attributes left behind: {bad}")
+        for a, v in c["case"]["exp"].items():
+            try:
+                got = float(el.attrs.get(a, "nan"))
+            except ValueError:
+                got = float("nan")
+            if not abs(got - v * geom.UNIT) < 1e-3:
+                return ("solve:partial-delta", f"{a} should be {v * geom.UNIT} (moved by the delta) but the output has {native_attrs(el)}")
+        return None
+    geom.run_and_compare(rep, cases, check, "c11")
+    rep.bounds["partial"] = {"cases": len(recs), "spellings": len(cases)}
 
 
 def run_unit(rep, cases, outs):
